@@ -35,6 +35,10 @@ Oracle (independent of the model, on what the implementation did):
     of the realistic stream): no processed meta tile lies inside a ring brought into the grid SRS point by point (pyproj);
   * TileWorkerPool.process puts the list into the queue exactly once however long the queue is full (fixed schedules
     first, then generated ones; also compared with Seed.pool_process);
+  * the interruption lies inside the work of a seed worker (real TileSeedWorker.work_loop / TileManager / TileCreator / FileCache
+    run in the walker's thread): the worker dies right after the k-th stored tile, for every k (also between the tiles of one
+    meta tile); the task is continued from the real progress file and finishes: every selected tile exists in the cache; the
+    same for caches that hold parts of meta tiles before an uninterrupted run (oracle only, store_crash_cases);
   * the walker does not raise (finding C11-sliver, repaired: rectangles thinner than 2/10 pixel are generated on purpose);
     the progress file holds exactly the reported identifier.
 """
@@ -298,7 +302,7 @@ class Run(object):
             log = RecLog(out=io.StringIO(), silent=True, verbose=True, progress_store=store)
             log.setup(self)
             log.current_task_id = self.task.id
-            pool = RecPool(self, log)
+            pool = self.make_pool(log)
             if self.stop_at is None:
                 progress = SeedProgress(old_progress_identifier=store.get(self.task.id))
             else:
@@ -342,6 +346,9 @@ class Run(object):
             if orig_intersects is not None:
                 del self.task.intersects
         return self
+
+    def make_pool(self, log):
+        return RecPool(self, log)
 
     def processed(self):
         """every single tile handed to the workers"""
@@ -2112,6 +2119,175 @@ def drain_cases(ctx):
                      {'task': spec, 'handed': expected, 'finished': finished, 'seconds_per_list': delay})
 
 
+# ----------------------------------------------------------------------------- interruption while a worker stores a meta tile
+
+class WorkingPool(RecPool):
+    """Records the hand-over like RecPool and then does the work in the calling thread with the REAL worker code
+    (TileSeedWorker.work_loop -> TileManager.load_tile_coords -> TileCreator -> cache.store_tiles) before the step is logged."""
+
+    def process(self, tiles, progress):
+        import mapproxy.seed.seeder as sd
+        from mapproxy.config import base_config
+
+        class OneShotQueue(object):
+            def __init__(self, items):
+                self.items = list(items)
+
+            def get(self):
+                return self.items.pop(0)
+        self.run.tick()
+        self.run.events.append(('proc', tuple(tuple(t) for t in tiles)))
+        worker = sd.TileSeedWorker(self.run.task, OneShotQueue([tiles, None]), base_config())
+        worker.work_loop()
+        if self.progress_logger:
+            self.run.clock.now += 1.0
+            self.progress_logger.log_step(progress)
+
+
+class StoringRun(Run):
+    def make_pool(self, log):
+        return WorkingPool(self, log)
+
+
+class UpstreamStub(object):
+    """upstream that renders any bbox (like a WMS)"""
+    supports_meta_tiles = True
+    transparent = False
+    coverage = None
+    res_range = None
+
+    def __init__(self):
+        from mapproxy.layer import DefaultMapExtent
+        self.extent = DefaultMapExtent()
+        self.requests = []
+
+    def get_map(self, query):
+        from PIL import Image
+        from mapproxy.image import ImageSource
+        from mapproxy.image.opts import ImageOptions
+        self.requests.append(tuple(query.bbox))
+        return ImageSource(Image.new('RGB', query.size, (200, 100, 50)), size=query.size, image_opts=ImageOptions(format='image/png'))
+
+
+def storing_task(spec, cache_dir, crash_after):
+    """SeedTask over a real TileManager / TileCreator / FileCache (tiles of a meta tile are stored one by one); the process
+    'dies' (Crash is a BaseException: nothing is cleaned up except the released lock) right after the crash_after-th stored tile."""
+    from mapproxy.cache.file import FileCache
+    from mapproxy.cache.dummy import DummyLocker
+    from mapproxy.cache.tile import TileManager
+    from mapproxy.image.opts import ImageOptions
+    from mapproxy.seed.seeder import SeedTask
+    state = {'stored': [], 'crash_after': crash_after}
+
+    class CrashingFileCache(FileCache):
+        def store_tile(self, tile, dimensions=None):
+            r = FileCache.store_tile(self, tile, dimensions=dimensions)
+            state['stored'].append(tuple(tile.coord))
+            if state['crash_after'] is not None and len(state['stored']) == state['crash_after']:
+                raise Crash()
+            return r
+    grid = build_grid(spec['grid'])
+    cache = CrashingFileCache(cache_dir, 'png')
+    src = UpstreamStub()
+    tm = TileManager(grid, cache, [src], 'png', locker=DummyLocker(), image_opts=ImageOptions(format='image/png'),
+                     meta_size=list(spec['meta']), meta_buffer=0)
+    md = {'name': 'c11', 'cache_name': 'cache', 'grid_name': 'grid'}
+    task = SeedTask(md, tm, list(spec['levels']), None, False, build_cov(spec['cov']))
+    return task, cache, state, src
+
+
+def store_crash_cases(ctx):
+    """The interruption point lies INSIDE the work of a seed worker: the process dies after it stored k tiles in total (for every
+    k: also in the middle of the tiles of one meta tile).  The task is then continued from the saved progress (real ProgressStore)
+    and runs to completion.  Oracle: every tile an uninterrupted run on the empty cache hands over exists in the cache afterwards.
+    Second family: caches that hold part of a meta tile for other reasons (deterministic rules), one uninterrupted run."""
+    from mapproxy.cache.tile import Tile
+    from mapproxy.image import ImageSource
+    from mapproxy.image.opts import ImageOptions
+    from PIL import Image
+    tasks = [
+        {'stream': 'exact', 'grid': {'srs': 3857, 'bbox': [0, 0, 10240, 10240], 'tile_size': [4, 4], 'res': [2560, 1280, 640], 'origin': 'll'},
+         'meta': [2, 2], 'levels': [1, 2], 'cov': {'type': 'bbox', 'bbox': [100, 100, 9000, 9000], 'srs': 3857}, 'skip': 0,
+         'refresh_all': False},
+        {'stream': 'exact', 'grid': {'srs': 3857, 'bbox': [0, 0, 15360, 10240], 'tile_size': [4, 4], 'res': [2560, 1280, 640], 'origin': 'ul'},
+         'meta': [3, 2], 'levels': [0, 2], 'cov': {'type': 'bbox', 'bbox': [3000, 100, 15000, 7000], 'srs': 3857}, 'skip': 0,
+         'refresh_all': False},
+    ]
+    if ctx.quick:
+        tasks = tasks[:2]
+    for ti, spec in enumerate(tasks):
+        base = ctx.tmpdir('c11store')
+        stub_spec = dict(spec, real_tm=False)
+        stub_task, grid = build_task(stub_spec)
+        ref = Run(stub_task, stub_spec, os.path.join(base, 'pref'), None, lambda i: True).go()
+        want = sorted(set(ref.processed()))
+        if ref.raised or len(want) < 8:
+            ctx.problem('harness', 'store-crash case: reference run unusable (%r, %d tiles)' % (ref.raised, len(want)))
+            continue
+
+        def missing_in(cache):
+            return [t for t in want if not cache.is_cached(Tile(t))]
+
+        # (a) the worker dies after the k-th stored tile, for every k
+        ks = list(range(1, len(want) + 1))
+        if ctx.quick and len(ks) > 24:
+            ks = ks[:12] + ks[12::3]
+        for k in ks:
+            cdir = os.path.join(base, 'cache-k%d' % k)
+            pfile = os.path.join(base, 'progress-k%d' % k)
+            task1, cache1, st1, _ = storing_task(spec, cdir, k)
+            r1 = StoringRun(task1, spec, pfile, None, lambda i: True).go()
+            task2, cache2, st2, _ = storing_task(spec, cdir, None)
+            r2 = StoringRun(task2, spec, pfile, None, lambda i: True).go()
+            ctx.case(('store-crash', ti, k), True, {'task': spec, 'worker_dies_after_stored_tiles': k})
+            ctx.count('worker_dies_while_storing')
+            if not r1.crashed or r1.raised or r2.raised or r2.crashed:
+                ctx.problem('harness', 'store-crash case %d/%d: run 1 crashed=%r raised=%r, run 2 crashed=%r raised=%r'
+                            % (ti, k, r1.crashed, r1.raised, r2.crashed, r2.raised))
+                continue
+            missing = missing_in(cache2)
+            if missing:
+                last = st1['stored'][-1]
+                ctx.fail('interrupted-store-never-completed',
+                         'seed worker dies right after storing tile %r (stored tile no. %d of the run, file cache, meta size %r); the task '
+                         'is continued from the saved progress %r and finishes (%d hand-overs, %d tiles stored), but %d of the %d selected '
+                         'tiles do not exist afterwards, e.g. %r'
+                         % (last, k, spec['meta'], r2.old, len(r2.calls()), len(st2['stored']), len(missing), len(want), missing[:4]),
+                         {'task': spec, 'worker_dies_after_stored_tiles': k, 'stored_before_death': [list(t) for t in st1['stored']],
+                          'saved_progress': r2.old, 'handed_in_continued_run': [[list(t) for t in c] for c in r2.calls()],
+                          'missing': [list(t) for t in missing]})
+
+        # (b) partly filled meta tiles in the cache before an uninterrupted run
+        for rule in ([2, 2, 1], [1, 3, 1], [1, 2, 1], [1, 5, 3]):
+            cdir = os.path.join(base, 'cache-r%s' % '-'.join(map(str, rule)))
+            pfile = os.path.join(base, 'progress-r%s' % '-'.join(map(str, rule)))
+            task, cache, st, src = storing_task(spec, cdir, None)
+            pre = [t for t in want if is_cached_rule(rule, t)]
+            for t in pre:
+                tile = Tile(t)
+                tile.source = ImageSource(Image.new('RGB', tuple(spec['grid']['tile_size']), (1, 2, 3)), image_opts=ImageOptions(format='image/png'))
+                cache.store_tile(tile)
+            del st['stored'][:]
+            r = StoringRun(task, spec, pfile, None, lambda i: True).go()
+            ctx.case(('store-partial', ti, tuple(rule)), bool(pre) and len(pre) < len(want), {'task': spec, 'cached_before': [list(t) for t in pre]})
+            ctx.count('partly_cached_meta_tiles_seeded')
+            if r.raised or r.crashed:
+                ctx.problem('harness', 'store-partial case %d/%r: raised=%r' % (ti, rule, r.raised))
+                continue
+            missing = missing_in(cache)
+            if missing:
+                ctx.fail('partly-cached-meta-tile-never-completed',
+                         'cache holds %d of the %d selected tiles (rule %r) before seeding; the seed task runs to completion (%d hand-overs) '
+                         'but %d selected tiles do not exist afterwards, e.g. %r' % (len(pre), len(want), rule, len(r.calls()), len(missing), missing[:4]),
+                         {'task': spec, 'cached_before': [list(t) for t in pre], 'handed': [[list(t) for t in c] for c in r.calls()],
+                          'missing': [list(t) for t in missing]})
+            handed = set(r.processed())
+            extra = sorted(handed & set(pre))
+            if extra:
+                ctx.fail('cached-tile-handed-over', 'uncached mode handed over tiles that were in the cache: %r' % (extra[:4],),
+                         {'task': spec, 'cached_before': [list(t) for t in pre], 'handed_although_cached': [list(t) for t in extra]})
+
+
 def load_corpus():
     out = []
     if os.path.isdir(CORPUS):
@@ -2144,6 +2320,11 @@ def run(ctx):
     except Exception as e:  # noqa
         import traceback
         ctx.problem('harness', 'drain case raised %r' % (e,), traceback.format_exc()[-1200:])
+    try:
+        store_crash_cases(ctx)
+    except Exception as e:  # noqa
+        import traceback
+        ctx.problem('harness', 'store-crash case raised %r' % (e,), traceback.format_exc()[-1200:])
     out = {'defs': [], 'tdefs': [], 'geo': [], 'tree': []}
     specs = []
     for fn, c in load_corpus():
